@@ -5,7 +5,7 @@ from ..suites_ops import K4Sem
 from ..suites_sql import K5Near, K5Sem
 
 PROPERTY = "C01"
-LEAN_MODULES = ["DAVerif.Props.C01core", "DAVerif.Props.C04merge", "DAVerif.Props.C18"]
+LEAN_MODULES = ["DAVerif.Props.C01core", "DAVerif.Props.C04merge", "DAVerif.Props.C01joins", "DAVerif.Props.C16full", "DAVerif.Props.C18"]
 THEOREMS = ["DAVerif." + t for t in (
     "C01_translation_engine_order", "C01_translation_sound_unary", "C01_translation_rows", "C01_translation_exact",
     "C01_final_order", "C01_translation_sound_reachable", "C01_reachable_sqlwf", "C08_sql_cols", "C09_sql_row_count",
@@ -14,7 +14,11 @@ THEOREMS = ["DAVerif." + t for t in (
     # the same statements for every setting of allow_extend_merges (Props/C04merge.lean)
     "Sql.C01_translation_engine_order_merges", "Sql.C01_translation_sound_unary_merges", "Sql.C01_translation_sound_reachable_merges",
     "Sql.C01_translation_exact_merges", "Sql.C08_sql_cols_merges", "Sql.C09_sql_row_count_merges", "Sql.C01_to_sql_total",
-    "Sql.C04_merge_option_sound", "Sql.C04_merge_invariant")]
+    "Sql.C04_merge_option_sound", "Sql.C04_merge_invariant",
+    # natural_join (all types) and concat_rows (Props/C01joins.lean, Props/C16full.lean)
+    "C01_joins_engine_order", "C01_translation_sound_joins", "C01_translation_sound_joins_generic", "C01_translation_sound_joins_sqlite",
+    "C01_translation_exact_joins", "C01_translation_sound_joins_reachable", "C08_sql_cols_joins", "C16_sql_native", "C16_sqlite_right_as_left",
+    "C16_sqlite_full_scope", "C16_sqlite_full_partial", "C16_sqlite_full_nullkeys_necessary")]
 ASSUMPTIONS = [
     "SQLite's evaluator = `semSql`/`semNear` (lean/DAVerif/Sql/Sem.lean): bag semantics, WHERE keeps TRUE rows, GROUP BY groups "
     "NULLs, an aggregate SELECT without GROUP BY returns one row, default window frame = ROWS frame under a total order, NULLs "
@@ -28,8 +32,10 @@ ASSUMPTIONS = [
 ]
 NOT_PROVEN = [
     "fragment of the kernel-checked translation theorem: table, extend (plain and windowed), project, select_rows, select/drop/"
-    "rename/map_columns, order_rows, with the extend merge on or off (Props/C04merge.lean); natural_join and concat_rows are "
-    "covered by correspondence + oracle only until Props/C01joins lands",
+    "rename/map_columns, order_rows, with the extend merge on or off (Props/C04merge.lean); natural_join (every type the dialect renders "
+    "natively; SQLite's emulated RIGHT / FULL join only at the root of the pipeline, FULL under the null-free-keys guard whose "
+    "necessity is proved = known finding D19) and concat_rows (a labelled side must not end in a limit-less order_rows) are proved "
+    "with extend merges off (Props/C01joins, Props/C16full); the combination joins + merges is covered by correspondence + oracle",
     "convert_records (record transforms are abstract in the executor model): oracle only",
     "text rendering / SQLite's parser: executed, not modelled",
 ]
@@ -43,7 +49,7 @@ LEVEL_TEXT = ("Kernel-checked: for every pipeline of the unary fragment, every r
               "compares Pandas with the real SQL on SQLite directly.")
 LEVEL_NOTE = ("Trusted: Lean kernel (+leanchecker in the thorough tier); axioms propext/Classical.choice/Quot.sound; the hand-written "
               "models sem / toNearSql / semSql (validated by k4_sem, k5_near, k5_sem on every run); SQLite's evaluator as modelled; "
-              "joins, concat_rows and convert_records are outside the present theorem (correspondence + oracle).")
+              "convert_records, nested emulated RIGHT/FULL joins on SQLite and joins together with extend merges are outside the present theorem (correspondence + oracle).")
 RULE = ("random type-directed pipelines over catalogue methods supported by Pandas and SQLite (pipes.gen_case) on random small "
         "tables with nulls, duplicates, ties and empty tables; each case: real NearSQL structure vs model (k5_near), real SQL "
         "executed on SQLite vs model semantics (k5_sem), Pandas vs model (k4_sem), and oracle_C01 (Pandas result vs SQLite result "
